@@ -125,6 +125,7 @@ func RunC01(c *Ctx, r *Report) {
 		r.Func(c.FuncName(fn))
 	}
 	c.protectTotality(r, prefix)
+	c.plainTotality(r, prefix)
 	// the padding the sender adds is what the receiver strips: 1..16 octets ending in the pad-length octet, for
 	// block-aligned plaintext too (the rule set of C10/C06)
 	c.pkcs7Rules(r, prefix)
